@@ -6,7 +6,12 @@ Model of the code (`Model/Linalg.lean`): `isTmat` (`is_transition_matrix`), `isE
 every entry of `T^K`, `K = (n-1)^2+1`, exceeds `atol = 1e-8`), `isFuzzyErgodic` (`is_fuzzy_ergodic`), `ergodicMask`
 (`ergodic_mask`), all in exact rational arithmetic.  `WF n m` = "`m` is a well-formed `n × n` list-of-lists matrix",
 `NonNeg m` = "all stored entries are `≥ 0`", `Walk b k i j` = "there is a walk of length `k` from `i` to `j` in the
-boolean graph `b`" (for `b = support m`: an edge `i → j` iff `m_ij ≠ 0`).
+boolean graph `b`" (for `b = support m`: an edge `i → j` iff `m_ij ≠ 0`; see `walk_is_walk`).  `maskRel`/`maskCnt`
+(the symmetric relation and the row counts inside `ergodic_mask`) and `addState T d` (the block matrix `T ⊕ (d)`) are
+defined in Lemmas/Linalg.lean.
+
+Not proved: completeness of the exponent `K` for `n ≥ 4` (Wielandt's theorem); `complete_n_le_3` covers `n ≤ 3` by
+kernel enumeration.  All statements about walks need non-negative entries, which `is_transition_matrix` does not check.
 -/
 import MsmVerif.Lemmas.Linalg
 import MsmVerif.Lemmas.Wielandt
@@ -25,7 +30,20 @@ theorem powFast_eq_pow (n : Nat) (m : Mat) (h : m.length = n ∧ ∀ r ∈ m, r.
 example : (([[1/2, 1/2], [1/3, 2/3]] : Mat).length = 2 ∧ ∀ r ∈ ([[1/2, 1/2], [1/3, 2/3]] : Mat), r.length = 2) := by
   decide
 
+/-- `is_ergodic` in terms of the naive matrix power: the model accepts `m` iff `m` is a transition matrix and every
+entry of `m^K`, `K = (n-1)² + 1`, exceeds `atol = 1e-8`. -/
+theorem ergodic_iff_pow (m : Mat) : isErgodic m = true ↔
+    isTmat m = true ∧ ∀ i j, i < m.length → j < m.length → atol < entry (pow m (wielandtExp m.length)) i j :=
+  isErgodic_iff m
+
 /-! ### 2. positive entries of powers are walks in the support graph -/
+
+/-- `Walk` is the usual notion: a walk of length 0 stays put, a walk of length 1 is an edge, and walks of length `a + c`
+are concatenations of a walk of length `a` and a walk of length `c`. -/
+theorem walk_is_walk (b : List (List Bool)) (i j : Nat) :
+    (Walk b 0 i j ↔ i = j) ∧ (Walk b 1 i j ↔ bent b i j = true) ∧
+    ∀ a c, Walk b (a + c) i j ↔ ∃ l, Walk b a i l ∧ Walk b c l j :=
+  ⟨Iff.rfl, Walk.one_iff b i j, fun a c => Walk.add_iff b a c i j⟩
 
 /-- For a non-negative well-formed `n × n` matrix and `i, j < n`: the `(i, j)` entry of the `k`-th power is positive
 iff the support graph (`edge u → v` iff `m_uv ≠ 0`) has a walk of length exactly `k` from `i` to `j`. -/
@@ -43,7 +61,9 @@ theorem support_only (n : Nat) (m m' : Mat) (h : m.length = n ∧ ∀ r ∈ m, r
     0 < entry (pow m k) i j ↔ 0 < entry (pow m' k) i j := by
   rw [Linalg.pow_pos_iff_walk (n := n) h hnn k hi hj, Linalg.pow_pos_iff_walk (n := n) h' hnn' k hi hj, hs]
 
-example : support [[1/2, 1/2], [1/3, 2/3]] = support [[1/5, 4/5], [1/7, 6/7]] := by decide +kernel
+example : support [[1/2, 1/2], [1/3, 2/3]] = support [[1/5, 4/5], [1/7, 6/7]] ∧
+    (∀ r ∈ ([[1/5, 4/5], [1/7, 6/7]] : Mat), r.length = 2) ∧
+    (∀ r ∈ ([[1/5, 4/5], [1/7, 6/7]] : Mat), ∀ x ∈ r, 0 ≤ x) := by decide +kernel
 
 /-! ### 3. soundness of `is_ergodic` -/
 
@@ -114,7 +134,10 @@ theorem mask_sound (m : Mat) (hnn : ∀ r ∈ m, ∀ x ∈ r, 0 ≤ x) (ht : isT
     (Linalg.pow_pos_iff_walk hw hnn _ hj hi).mp (lt_trans atol_pos h.2)⟩
 
 example : ergodicMask [[1/2, 1/2, 0], [1/2, 1/2, 0], [0, 0, 1]] = some [true, true, false] ∧
-    maskRel [[1/2, 1/2, 0], [1/2, 1/2, 0], [0, 0, 1]] 0 1 = true := by decide +kernel
+    isTmat [[1/2, 1/2, 0], [1/2, 1/2, 0], [0, 0, 1]] = true ∧
+    (∀ r ∈ ([[1/2, 1/2, 0], [1/2, 1/2, 0], [0, 0, 1]] : Mat), ∀ x ∈ r, 0 ≤ x) ∧
+    maskRel [[1/2, 1/2, 0], [1/2, 1/2, 0], [0, 0, 1]] 0 1 = true ∧
+    maskRel [[1/2, 1/2, 0], [1/2, 1/2, 0], [0, 0, 1]] 0 2 = false := by decide +kernel
 
 /-! ### 7. completeness of the exponent `K` (Wielandt's bound), enumerated for `n ≤ 3` -/
 
